@@ -55,6 +55,36 @@ pub struct Proto {
     pub relaxed_log: Vec<(St, Decision, St, St, isize, isize)>,
     pub merge_log: Vec<(Vec<St>, St)>,
     pub expansions: Vec<(usize, St)>,
+    /// last answer of the width heuristic in this thread: (depth, state of the sub-problem, width)
+    last_width: Option<(usize, St, usize)>,
+    /// where a worker thread of the parallel solver leaves what it observed
+    sink: Option<Arc<ParSink>>,
+}
+/// Collects the observations of the worker threads of one run of the parallel solver (their thread locals die with them).
+#[derive(Default)]
+pub struct ParSink { pub all_impacted: bool, pub alarms12: std::sync::Mutex<Vec<String>>, pub alarms13: std::sync::Mutex<Vec<String>>, pub stats: std::sync::Mutex<Stats> }
+
+/// Width heuristic wrapper.  The solvers ask it once per sub-problem, in the thread which then compiles that sub-problem:
+/// (1) it remembers the answer, so that the diagram wrapper can tell whether the compilation is given that very width;
+/// (2) in a worker thread of the parallel solver (fresh thread, thread locals in their default state) it switches the
+/// protocol automaton on and attaches the sink of the run.
+pub struct RecWidth { pub w: usize, pub sink: Option<Arc<ParSink>> }
+impl WidthHeuristic<St> for RecWidth {
+    fn max_width(&self, sp: &SubProblem<St>) -> usize {
+        PROTO.with(|p| {
+            let mut p = p.borrow_mut();
+            if let Some(s) = &self.sink {
+                if !p.enabled || p.sink.as_ref().map_or(true, |x| !Arc::ptr_eq(x, s)) {
+                    *p = Proto::default();
+                    p.enabled = true;
+                    p.all_impacted = s.all_impacted;
+                    p.sink = Some(s.clone());
+                }
+            }
+            if p.enabled { p.last_width = Some((sp.depth, *sp.state, self.w)); }
+        });
+        self.w
+    }
 }
 thread_local! {
     pub static PROTO: RefCell<Proto> = RefCell::new(Proto::default());
@@ -249,6 +279,15 @@ impl Proto {
     pub fn end(&mut self) {
         self.close_layer();
         self.in_compile = false;
+        if let Some(s) = self.sink.clone() {
+            // worker thread of the parallel solver: hand over what this compilation added
+            s.alarms12.lock().unwrap().append(&mut self.alarms12);
+            s.alarms13.lock().unwrap().append(&mut self.alarms13);
+            let mut t = s.stats.lock().unwrap();
+            let d = std::mem::take(&mut self.stats);
+            t.compilations += d.compilations; t.relaxed += d.relaxed; t.restricted += d.restricted; t.merges += d.merges; t.relax_calls += d.relax_calls;
+            t.recycled_candidates += d.recycled_candidates; t.layers_checked += d.layers_checked; t.max_layer_expansions = t.max_layer_expansions.max(d.max_layer_expansions);
+        }
     }
 }
 
@@ -258,7 +297,23 @@ impl<D: Default> Default for RecDD<D> { fn default() -> Self { RecDD(D::default(
 impl<D: DecisionDiagram<State = St>> DecisionDiagram for RecDD<D> {
     type State = St;
     fn compile(&mut self, input: &CompilationInput<St>) -> Result<Completion, Reason> {
-        let on = PROTO.with(|p| { let mut p = p.borrow_mut(); if p.enabled { p.begin(input.comp_type, input.max_width, input.residual.depth); p.residual_path = input.residual.path.clone(); p.residual_state = Some(*input.residual.state); } p.enabled });
+        let on = PROTO.with(|p| {
+            let mut p = p.borrow_mut();
+            if p.enabled {
+                p.begin(input.comp_type, input.max_width, input.residual.depth);
+                p.residual_path = input.residual.path.clone();
+                p.residual_state = Some(*input.residual.state);
+                // a solver run: the width given to the compilation is the one the heuristic answered for THIS sub-problem
+                if let Some((d, st, w)) = p.last_width {
+                    if (d, st) != (input.residual.depth, *input.residual.state) && p.alarms13.len() < 8 {
+                        p.alarms13.push(format!("{:?} compilation of sub-problem {:?}@{} although the width heuristic was last asked about {:?}@{}", input.comp_type, input.residual.state, input.residual.depth, st, d));
+                    } else if w != input.max_width && input.comp_type != CompilationType::Exact && p.alarms13.len() < 8 {
+                        p.alarms13.push(format!("{:?} compilation of sub-problem {:?}@{} with max_width {} although the width heuristic answered {}", input.comp_type, input.residual.state, input.residual.depth, input.max_width, w));
+                    }
+                }
+            }
+            p.enabled
+        });
         let r = self.0.compile(input);
         if on { PROTO.with(|p| p.borrow_mut().end()); }
         r
